@@ -93,8 +93,21 @@ def exotic(seed, ref=None, fref=None, rich=True):
 warnings.filterwarnings("ignore")
 np.seterr(all="ignore")
 
-BASE = {"Promolecule": Promolecule, "Connectivity": Connectivity, "CartesianGeometry": CartesianGeometry, "Structure": Structure, "Molecule": Molecule}
-SOURCES = ["Promolecule", "Connectivity", "CartesianGeometry", "Structure", "Molecule", "ConformerEnsemble", "Conformer"]
+class Ligand(Molecule):
+    """a user subclass of Molecule (module level: picklable)"""
+
+
+class Frame(Structure):
+    """a user subclass of Structure"""
+
+
+class Pool(ConformerEnsemble):
+    """a user subclass of ConformerEnsemble"""
+
+
+# user subclasses are sources AND targets of the copy constructors: Sub(Base), Base(Sub), Sub(Sub), Sub(conformer view)
+BASE = {"Promolecule": Promolecule, "Connectivity": Connectivity, "CartesianGeometry": CartesianGeometry, "Structure": Structure, "Molecule": Molecule, "Frame": Frame, "Ligand": Ligand}
+SOURCES = ["Promolecule", "Connectivity", "CartesianGeometry", "Structure", "Molecule", "ConformerEnsemble", "Conformer", "Frame", "Ligand"]
 
 POSES = [(0.0, 0.0, 0.0), (0.5, -0.25, 1.0), (-1.5, 2.0, 0.25)]
 # every row carries values that are NOT representable in float32, at several magnitudes (1e-7 .. 1e3):
@@ -223,7 +236,7 @@ def build_base(clsname, seed, tag="", pop="full"):
     kw = {}
     if issubclass(cls, CartesianGeometry):
         kw["coords"] = _coords(seed, 0, tag)
-    if cls is Molecule:
+    if issubclass(cls, Molecule):
         kw["atomic_charges"] = _charges(0, tag)
     m = cls(_atoms(tag, seed, pop), name=f"src{tag}", charge=-1, mult=2, **kw)
     m.attrib.update(_mol_attrib(seed, pop))
@@ -627,6 +640,7 @@ def unary_routes():
     for d, cls in BASE.items():
         r[f"ctor:{d}"] = ("copy-ctor", (lambda c: (lambda o: c(o)))(cls))
     r["ctor:ConformerEnsemble"] = ("copy-ctor", lambda o: ConformerEnsemble(o))
+    r["ctor:Pool"] = ("copy-ctor", lambda o: Pool(o))
     r["pickle"] = ("pickle", lambda o: pickle.loads(pickle.dumps(o)))
     r["deepcopy"] = ("deepcopy", lambda o: _copy.deepcopy(o))
     return r
@@ -639,7 +653,7 @@ def unary_applicable(rname, obj):
     if rname in ("pickle", "deepcopy"):
         return True
     d = rname.split(":")[1]
-    if d == "ConformerEnsemble":
+    if d in ("ConformerEnsemble", "Pool"):
         return isinstance(obj, ConformerEnsemble)  # ConformerEnsemble(ens); (mol) -> see ensemble-from-list
     if isinstance(obj, ConformerEnsemble):
         return d in ("Promolecule", "Connectivity")
@@ -1629,8 +1643,11 @@ def cells2(ctx, routes_for, muts, dirty):
     seed = ctx.seed
     ur = unary_routes()
     out = []
+    # the user subclasses add nothing to the second wave that Structure / Molecule do not already carry
+    # (budget): they stay in the first wave, as sources and as targets
+    WAVE2 = [x for x in SOURCES if x not in ("Frame", "Ligand")]
     # chains of two unary routes: the class of the first copy decides what applies next
-    for s in SOURCES:
+    for s in WAVE2:
         for (r1,) in [r for r in routes_for[s] if r[0] not in BINARY and (s, r[0]) not in dirty]:
             try:
                 mid = ur[r1][1](build_source(s, seed).obj)
@@ -1644,7 +1661,7 @@ def cells2(ctx, routes_for, muts, dirty):
                         for d in ("copy", "source"):
                             out.append({"src": s, "pop": pop, "route": [r1, r2], "muts": [m], "dir": d})
     # every ordered pair of mutations on every single route
-    for s in SOURCES:
+    for s in WAVE2:
         for r in [r for r in routes_for[s] if (s, r[0]) not in dirty]:
             for pop in ("full", "bare"):
                 if not _pop_ok(pop, r):
@@ -1723,6 +1740,8 @@ def run(ctx):
         "twice stays one object, a conformer stays a view of the copied ensemble) - what the generic __reduce_ex__ route of HEAD "
         "guarantees; likewise a reference to an own atom / bond inside an attrib must point at the copy's own atom / bond after pickle "
         "and deepcopy",
+        "user subclasses (class Ligand(Molecule), class Frame(Structure), class Pool(ConformerEnsemble)) are sources and targets of "
+        "the copy constructors like the library classes: Sub(Base), Base(Sub), Sub(Sub), Sub(conformer view); oracle unchanged",
         "copy constructors also run on sources whose atoms belong (also) to another container: Substructure (heavy atoms; an "
         "unordered atom list) and a Molecule two of whose atoms were later adopted by Promolecule([...]); for these the parent / idx "
         "an atom reports refer to the other container by construction and are not compared, fields the source cannot answer (a "
